@@ -1029,6 +1029,34 @@ def play_crash(k, scn, cr, sink):
     return verdicts
 
 
+def peer_last_number(k, gen, sink):
+    """the receiving direction at the very last Partial IV: a peer may send 2^40-1 (ff ff ff ff ff), which aiocoap's
+    own sender refuses to issue (it stops one short); the recipient must round-trip it like any other"""
+    for lc, ls in ((1, 1), (0, 2), (7, 3)):
+        scn = gen.scenario(alg=(10, 13), lc=lc, ls=ls, cseq=MAXSEQ, sseq=1, nresp=0, flips="none")
+        peer_last_number_one(k, scn, sink)
+
+
+def peer_last_number_one(k, scn, sink):
+    class PeerCtx(k.Ctx):
+        def new_sequence_number(self):
+            n = self.sender_sequence_number
+            self.sender_sequence_number += 1
+            return n
+
+    if True:
+        idctx = None if scn["idctx"] is None else unhx(scn["idctx"])
+        C = PeerCtx(k.Aead(10, 13), unhx(scn["cid"]), unhx(scn["sid"]), idctx, unhx(scn["secret"]), unhx(scn["salt"]))
+        C.sender_sequence_number = MAXSEQ
+        outer, _ = C.protect(build_message(k, scn["req"]), None)
+        outer.mid, outer.mtype, outer.token = scn["mid"], k.aiocoap.Type(scn["mtype"]), unhx(scn["token"])
+        wire = outer.encode()
+        out, line, msg, _ = do_unprotect(k, make_ctx(k, scn, "s"), None, wire)
+        sink.add({"scn": scn, "step": "peer-last-number"}, line, out,
+                 oracle_roundtrip(msg, scn["req"], True, what="request with Partial IV 2^40-1"),
+                 "roundtrip:request:last-number", nontrivial=True, tag="step:peer-last-number")
+
+
 def make_twin(gen, scn):
     """a request that agrees with scn['req'] on the outer-visible fields only"""
     req = scn["req"]
@@ -1404,6 +1432,7 @@ def run(env, rep):
         if len(sink.lines) >= 20000:
             compare(env, rep, sink.cases, sink.lines, sink.impl, what="protect/unprotect")
             sink.cases, sink.lines, sink.impl = [], [], []
+    peer_last_number(k, gen, sink)
     compare(env, rep, sink.cases, sink.lines, sink.impl, what="protect/unprotect")
     for need in ("step:unprotect-request", "step:unprotect-response", "step:session-forgeries",
                  "step:crash-challenge", "step:crash-second-life", "manip:optbit:must-fail",
@@ -1444,6 +1473,9 @@ def replay(env, case):
     sink = Sink(None)
     if "session" in case:
         return play_session(k, scn, case["session"], sink)
+    if case.get("step") == "peer-last-number":
+        peer_last_number_one(k, scn, sink)
+        return sink.last_verdict
     if "crash" in case:
         for v in play_crash(k, scn, case["crash"], sink):
             if v:
